@@ -4,8 +4,8 @@ Agreement of the compiled validators with the Python validators
 -/
 import TraitsVerif.Lemmas.ValFast
 import TraitsVerif.Lemmas.ValInduct
-namespace TraitsVerif.Model
-open TraitsVerif TraitsVerif.Py
+namespace TraitsVerif.Model.Val
+open TraitsVerif TraitsVerif.Py.Value
 
 /-- The statement's relation between the fast result and the Python result:
 accepted values coincide (same exact type, same payload), a Python TraitError is
@@ -39,7 +39,7 @@ def TraitType.leafClean : TraitType → Bool
   | _ => true
 
 /-- Not an instance of a tuple subclass (F11). -/
-def _root_.TraitsVerif.Py.Val.notTupleSub : Val → Bool
+def _root_.TraitsVerif.Py.Value.Val.notTupleSub : Val → Bool
   | .tuple true _ => false
   | _ => true
 
@@ -91,7 +91,7 @@ theorem asInteger_eq_py (v : Val) : asInteger v = pyValidateInt v := by
 
 theorem agree_leaf (hE : CastIdem E) (t : TraitType) (d : Desc) (v : Val)
     (hl : t.isLeaf = true) (hc : t.leafClean = true) (hd : descOf E t = some d)
-    (hp : hasPy t = true) (hv : v.notTupleSub = true) :
+    (hp : hasPy t = true) (hv : (∃ items, t = .tuple items) → v.notTupleSub = true) :
     Agree (fastAlone E d v) (pyValidate E t v) := by
   cases t <;> simp [TraitType.isLeaf, TraitType.leafClean, hasPy] at hl hc hp <;>
     simp [descOf] at hd <;> (try subst hd)
@@ -341,7 +341,7 @@ theorem agreeP_atomic (hE : CastIdem E) (t : TraitType) (hs : t.subs = none) : A
   have hlc : t.leafClean = true := by
     cases t <;> simp [TraitType.subs] at hs <;> simpa [TraitType.clean] using hc
   by_cases hp : hasPy t = true
-  · exact fast_eq_of_agree (agree_leaf E hE t d v hl hlc hd hp hv) hr
+  · exact fast_eq_of_agree (agree_leaf E hE t d v hl hlc hd hp (fun _ => hv)) hr
   · have := hasPy_false_desc E t d v (by simpa using hp) hd
     exact absurd this (hr _)
 
@@ -536,7 +536,7 @@ theorem agreeP_tuple (hE : CastIdem E) (items : List TraitType) : AgreeP E (.tup
   constructor
   · intro d hd; simp [descOf] at hd; subst hd; exact Or.inl rfl
   · intro d v hd _ hv hr
-    exact fast_eq_of_agree (agree_leaf E hE _ d v rfl rfl hd rfl hv) hr
+    exact fast_eq_of_agree (agree_leaf E hE _ d v rfl rfl hd rfl (fun _ => hv)) hr
 
 theorem agreeP_none (t : TraitType) (h : descOf E t = none) : AgreeP E t :=
   ⟨fun d hd => by simp [h] at hd, fun d v hd => by simp [h] at hd⟩
@@ -556,4 +556,4 @@ theorem agreeP_all (hE : CastIdem E) : ∀ t, AgreeP E t :=
       case compoundH hs' => subst hs; exact agreeP_compoundH E hs' hQ)
     (agreeQ_nil E) (agreeQ_cons E)
 
-end TraitsVerif.Model
+end TraitsVerif.Model.Val
